@@ -1751,6 +1751,7 @@ type PVal struct {
 	V       ssa.Value // nil: the zero value of the cell
 	Outside bool      // stored by another function (a deferred or spawned literal)
 	Store   *ssa.Store
+	Leaf    *ssa.Store // the store that first put the value into a variable (Store: into the variable read)
 }
 
 // PossibleValues lists what a value may be when it is a read of a local
@@ -1758,7 +1759,21 @@ type PVal struct {
 // zero value if it can reach, and every store made by function literals.
 // Any other value yields itself.
 func (x *FnIndex) PossibleValues(v ssa.Value) []PVal {
-	return x.possibleValues(v, 0)
+	pvs := x.possibleValues(v, 0)
+	u, ok := x.Origin(v).(*ssa.UnOp)
+	if !ok || u.Op != token.MUL || len(pvs) < 2 || len(x.flagCells(u.Parent())) == 0 {
+		return pvs
+	}
+	// drop the values that cannot be in the variable at this read on any path the flag
+	// variables allow (`v, ok := lookup(); if ok { use(v) }` after inlining)
+	var out []PVal
+	for _, pv := range pvs {
+		if pv.Leaf != nil && !pv.Outside && pv.Leaf.Parent() == u.Parent() && !x.tokenReaches(u.Parent(), pv.Leaf, u, u) {
+			continue
+		}
+		out = append(out, pv)
+	}
+	return out
 }
 
 func (x *FnIndex) possibleValues(v ssa.Value, depth int) []PVal {
@@ -1777,6 +1792,9 @@ func (x *FnIndex) possibleValues(v ssa.Value, depth int) []PVal {
 		for _, d := range defs {
 			for _, pv := range x.possibleValues(d.Val, depth+1) {
 				pv.Store = d
+				if pv.Leaf == nil {
+					pv.Leaf = d
+				}
 				out = append(out, pv)
 			}
 		}
@@ -1942,8 +1960,9 @@ func (x *FnIndex) tokenReaches(fn *ssa.Function, from *ssa.Store, at ssa.Instruc
 				if t.vals[use] {
 					return true
 				}
-				if u, ok := use.(*ssa.UnOp); ok && u.Op == token.MUL {
-					if c := cellOf(u.X); c != nil && t.cells[c] && false {
+				// the use is this very read
+				if u, ok := use.(*ssa.UnOp); ok && u.Op == token.MUL && ssa.Instruction(u) == at {
+					if c := cellOf(u.X); c != nil && t.cells[c] {
 						return true
 					}
 				}
